@@ -186,6 +186,8 @@ for _line_name, _line in (('hash', b'#\r\n'), ('text', b'Welcome to this host\r\
 SHAPE_NAMES = sorted(SHAPES)
 SCALES = (1, 2, 4, 8, 16)
 NEST_MARGINAL_GROWTH = 1.6
+DEPTH_GROWTH = 12          # frames: more than this between the smallest and the largest input of a series
+REPEAT_GROWTH = (1.3, 150)  # the same call later in the process: steps <= 1.3 * first + 150
 
 
 AUTO_SEPARATORS = (b'\r\n', b'; ', b';', b', ', b',', b' ')
@@ -246,6 +248,69 @@ def auto_shapes():
 def build_auto(raw, sep, idx, count, item=None):
     parts = raw.split(sep)
     return sep.join(parts[:idx + 1] + [parts[idx] if item is None else item] * count + parts[idx + 1:])
+
+
+_LP_SHAPES = None
+LP_ITEMS = ('same', 'max')
+
+
+def lp_shapes():
+    """Lists of length-prefixed items in binary formats: a length-prefixed span of an accepted seed which, duplicated
+    right behind itself (enclosing length fields adjusted), is still accepted with more bytes consumed.
+    [(class path, seed hex, offset of the prefix, prefix size), ...]"""
+    global _LP_SHAPES  # pylint: disable=global-statement
+    if _LP_SHAPES is None:
+        shapes = []
+        for path in corpus.class_paths():
+            cls = corpus.resolve(path)
+            for raw in corpus.accepted(path)[:3]:
+                if wirefault.is_text(raw) or not 2 <= len(raw) <= 600:
+                    continue
+                try:
+                    base_consumed = cls.parse_immutable(raw)[1]
+                except Exception:  # pylint: disable=broad-except
+                    continue
+                found = 0
+                for size in (1, 2, 4):
+                    for at in range(0, len(raw) - size):
+                        length = int.from_bytes(raw[at:at + size], 'big')
+                        if not 1 <= length <= len(raw) - at - size:
+                            continue
+                        data = build_lp(raw, at, size, 1, 'same')
+                        try:
+                            consumed = cls.parse_immutable(data)[1]
+                        except Exception:  # pylint: disable=broad-except
+                            continue
+                        if consumed >= base_consumed + size + length:
+                            shapes.append((path, raw.hex(), at, size))
+                            found += 1
+                            if found >= 3:
+                                break
+                    if found >= 3:
+                        break
+        _LP_SHAPES = shapes
+    return _LP_SHAPES
+
+
+def build_lp(raw, at, size, count, item_kind):
+    """`count` more items inserted behind the length-prefixed item at `at`: copies of it, or items of the maximal
+    length a 1-octet prefix can announce (255 octets; 1024 for wider prefixes) filled with the item's first octet.
+    Every length field in front that covers the item is adjusted."""
+    length = int.from_bytes(raw[at:at + size], 'big')
+    item = raw[at:at + size + length]
+    if item_kind == 'max':
+        big = 255 if size == 1 else 1024
+        item = big.to_bytes(size, 'big') + (raw[at + size:at + size + 1] or b'a') * big
+    extra = item * count
+    end = at + size + length
+    out = bytearray(raw[:end] + extra + raw[end:])
+    for field in (4, 3, 2, 1):
+        for pos in range(0, at - field + 1):
+            value = int.from_bytes(raw[pos:pos + field], 'big')
+            if value and end <= pos + field + value <= len(raw) and value + len(extra) < (1 << (8 * field)) and \
+                    (field == 4 or (field > 1 and (raw[pos] == 0 or value > 255)) or (field == 1 and pos + 1 + value == len(raw))):
+                out[pos:pos + field] = (value + len(extra)).to_bytes(field, 'big')
+    return bytes(out)
 
 
 _NEST_SHAPES = None
@@ -344,6 +409,7 @@ def prepare(tier):  # pylint: disable=unused-argument
     stepclock.clock().install()
     auto_shapes()
     nest_shapes()
+    lp_shapes()
     sweep_seeds()
     return {'phase': 'fuzz'}
 
@@ -372,6 +438,11 @@ def _generate(rng, index, tier, extra):
         path, raw_hex, sep_hex, idx, item_hex = shapes[pick % len(shapes)]
         return {'kind': 'autoscale', 'cls': path, 'hex': raw_hex, 'sep': sep_hex, 'at': idx, 'item': item_hex,
                 'engaged_only': tier == 'quick'}
+    if phase == 'lp':
+        shapes = lp_shapes()
+        path, raw_hex, at, size = shapes[(index // len(LP_ITEMS)) % len(shapes)]
+        return {'kind': 'lpscale', 'cls': path, 'hex': raw_hex, 'at': at, 'size': size,
+                'item': LP_ITEMS[index % len(LP_ITEMS)], 'quick': tier == 'quick'}
     if phase == 'nest':
         shapes = nest_shapes()
         path, raw_hex, at, size = shapes[(index // len(NEST_INNER)) % len(shapes)]
@@ -433,6 +504,8 @@ def execute(doc):
         _exec_countsweep(doc, res)
     elif kind == 'nestscale':
         _exec_nestscale(doc, res)
+    elif kind == 'lpscale':
+        _exec_lpscale(doc, res)
     else:
         raise core.HarnessError('unknown schedule kind %r' % kind)
     return res
@@ -555,6 +628,9 @@ def _series_verdict(res, label, cls, series, sig_tail):
         grow = math.log2(max(1, len_b) / max(1, len_a))
         exps.append(math.log2(max(1, steps_b) / max(1, steps_a)) / grow if grow > 0.2 else 0.0)
     tail = exps[-2:]
+    if len(series) >= 3 and series[-1][2] > series[0][2] + DEPTH_GROWTH and series[-1][2] > 40:
+        res.violation((PROPERTY, 'depth-grows') + tuple(sig_tail), 'recursion depth is bounded by a constant',
+                      '%s (%s): (len, depth) = %s' % (label, cls.__name__, [(s[0], s[2]) for s in series]))
     if series[-1][1] > 20000 and tail and max(tail) > MAX_EXPONENT:
         res.violation((PROPERTY, 'superlinear') + tuple(sig_tail),
                       'growth exponent at the two largest doublings <= %.2f' % MAX_EXPONENT,
@@ -602,6 +678,28 @@ def _exec_autoscale(doc, res):
     res.stats['scale.max_exponent_x100_bucket_%d' % int(max(tail or [0]) * 10)] += 1
 
 
+def _exec_lpscale(doc, res):
+    cls = corpus.resolve(doc['cls']) or core.get_class(doc['cls'])
+    raw = bytes.fromhex(doc['hex'])
+    series = []
+    for count in ((16, 32, 64, 128, 256) if doc.get('quick') else (16, 32, 64, 128, 256, 512, 1024)):
+        data = build_lp(raw, doc['at'], doc['size'], count, doc['item'])
+        if len(data) > 400000 or (series and len(data) <= series[-1][0]):
+            break
+        steps, stack, status = _measure(cls, 'parse_immutable', data)
+        series.append((len(data), steps, stack, status))
+        _judge(res, cls.__name__, 'parse_immutable', len(data), steps, stack, status)
+        res.sim_events += 1
+    tail = _series_verdict(res, 'length-prefixed item at offset %d repeated (%s items)' % (doc['at'], doc['item']),
+                           cls, series, (cls.__name__, 'repeat-lp-item', doc['item']))
+    res.note('lpscale', cls.__name__, [s[3] for s in series])
+    res.stats['runs.lpscale'] += 1
+    res.stats['scale.accepted_inputs' if any(s[3] == 'ok' for s in series) else 'scale.rejected_inputs'] += 1
+    res.sched_sig = ('lpscale', cls.__name__, doc['at'], doc['item'], tuple(s[3] for s in series))
+    res.nontrivial = True
+    res.stats['scale.max_exponent_x100_bucket_%d' % int(max(tail or [0]) * 10)] += 1
+
+
 def _exec_nestscale(doc, res):
     cls = corpus.resolve(doc['cls']) or core.get_class(doc['cls'])
     raw = bytes.fromhex(doc['hex'])
@@ -642,6 +740,7 @@ def _exec_countsweep(doc, res):
     raw = bytes.fromhex(doc['hex'])
     only = doc.get('only')
     cases = 0
+    measured = []
     plan = only if only is not None else [
         (off, size, value) for size, values in sorted(SWEEP_VALUES.items()) for value in values
         for off in range(0, len(raw) - size + 1)]
@@ -650,6 +749,8 @@ def _exec_countsweep(doc, res):
         if data == raw:
             continue
         steps, depth, status = _measure(cls, 'parse_immutable', data)
+        if cases % 7 == 0 and len(measured) < 400:
+            measured.append((data, steps))
         before = len(res.violations)
         _judge(res, cls.__name__, 'parse_immutable', len(data), steps, depth, status)
         for violation in res.violations[before:]:
@@ -657,6 +758,18 @@ def _exec_countsweep(doc, res):
         cases += 1
         if len(res.violations) > 3:
             break
+    # the same inputs again, after all the other calls: per-call work does not grow with the history of the process
+    if only is None and measured:
+        again = measured            # every seventh case of the sweep (at most 400)
+        for data, first_steps in again:
+            steps, depth, status = _measure(cls, 'parse_immutable', data)
+            res.stats['probe.call_repeated_after_the_sweep'] += 1
+            if steps > first_steps * REPEAT_GROWTH[0] + REPEAT_GROWTH[1]:
+                res.violation((PROPERTY, 'work-grows-with-earlier-calls', cls.__name__),
+                              'the work of a call is bounded by its own input',
+                              '%s.parse_immutable on the same %d bytes: %d line steps at first, %d after %d other calls '
+                              'in the same process' % (cls.__name__, len(data), first_steps, steps, cases))
+                break
     res.stats['fault.lenfield'] += cases
     res.stats['countsweep.cases'] += cases
     res.stats['countsweep.seeds'] += 1
@@ -740,9 +853,10 @@ def check(tier, seed):
     auto = core.run_batch(me, seed, tier, n_auto, 1500.0, {'phase': 'autoscale'}, chunk=2)
     sweep = core.run_batch(me, seed, tier, len(sweep_seeds()), 900.0, {'phase': 'sweep'}, chunk=4)
     nest = core.run_batch(me, seed, tier, len(nest_shapes()) * len(NEST_INNER), 600.0, {'phase': 'nest'}, chunk=1)
+    lps = core.run_batch(me, seed, tier, len(lp_shapes()) * len(LP_ITEMS), 600.0, {'phase': 'lp'}, chunk=2)
     fuzz = core.run_batch(me, seed, tier, n_runs, wall, extra)
     alloc = core.run_batch(me, seed, tier, n_alloc, 120.0, {'phase': 'alloc'})
-    batch = core.merge_batches([scale, auto, sweep, nest, fuzz, alloc, histories])
+    batch = core.merge_batches([scale, auto, sweep, nest, lps, fuzz, alloc, histories])
     coverage = core.coverage_from_batch(
         batch, RULE, fault_kinds=wire.FAULT_KINDS,
         probes=('declared_length_over_2^24_with_little_data', 'scaled_input_over_16k', 'input_over_1k', 'depth_over_30'),
